@@ -99,3 +99,42 @@ func nestedStmtSources(rng *rand.Rand, n int) [][]byte {
 	}
 	return out
 }
+
+// longChainSources: long flat runs of one construct — a left-nested operator chain of n operands, n elements of a
+// list, n statements, n else-if links, n arguments — at lengths around powers of two and small buffer sizes
+// (a walk that keeps a fixed-size stack or batch shows at such a boundary)
+func longChainSources() [][]byte {
+	var out [][]byte
+	ops := []string{".", "+", "&&", "??", "|", "->f()", "[0]"}
+	for _, n := range []int{15, 16, 17, 31, 32, 33, 34, 35, 63, 64, 65, 66, 100, 129, 257} {
+		for _, op := range ops {
+			var b strings.Builder
+			b.WriteString("<?php $r = $v0")
+			for i := 1; i < n; i++ {
+				if op == "->f()" || op == "[0]" {
+					b.WriteString(op)
+				} else {
+					fmt.Fprintf(&b, " %s $v%d", op, i)
+				}
+			}
+			b.WriteString(";")
+			out = append(out, []byte(b.String()))
+		}
+		var l, st, ei, ar strings.Builder
+		l.WriteString("<?php $a = [")
+		ar.WriteString("<?php f(")
+		ei.WriteString("<?php if ($c0) { a0(); }")
+		st.WriteString("<?php ")
+		for i := 0; i < n; i++ {
+			fmt.Fprintf(&l, "$v%d, ", i)
+			fmt.Fprintf(&ar, "$v%d, ", i)
+			fmt.Fprintf(&ei, " elseif ($c%d) { a%d(); }", i+1, i+1)
+			fmt.Fprintf(&st, "$v%d = %d; ", i, i)
+		}
+		l.WriteString("1];")
+		ar.WriteString("1);")
+		ei.WriteString(" else { z(); }")
+		out = append(out, []byte(l.String()), []byte(ar.String()), []byte(ei.String()), []byte(st.String()))
+	}
+	return out
+}
